@@ -74,6 +74,7 @@ type FuncCtx struct {
 	outSt    map[*ssa.BasicBlock]*State
 	blockReach map[*ssa.BasicBlock]string
 	paramCell map[*ssa.Alloc]string
+	opaqueComps map[string][]string
 	paramAlloc map[*ssa.Alloc]string
 	typeArgs map[string]types.Type
 }
@@ -140,6 +141,15 @@ func (fc *FuncCtx) get(st *State, key string) string {
 	if v, ok := st.m[key]; ok {
 		return v
 	}
+	if st.bind != nil {
+		if _, ok := fc.compSort[key]; !ok {
+			panic(fmt.Sprintf("internal: component %s not registered", key))
+		}
+		n := fmt.Sprintf("hb?%d?%s", len(*st.bind), sanitize(shortKey(key)))
+		st.m[key] = n
+		*st.bind = append(*st.bind, key)
+		return n
+	}
 	if n, ok := fc.initName[key]; ok {
 		return n
 	}
@@ -163,6 +173,14 @@ func (fc *FuncCtx) get(st *State, key string) string {
 
 func (fc *FuncCtx) set(st *State, key, term string) {
 	so := fc.compSort[key]
+	if strings.HasPrefix(term, "(ite ") && strings.HasPrefix(so, "(Array") {
+		// named by a constant (not a macro) so that the term can occur in patterns
+		n := fc.fresh(so, "s_"+shortKey(key))
+		fc.emit("(assert (= " + n + " " + term + "))")
+		st.m[key] = n
+		fc.touched[key] = true
+		return
+	}
 	st.m[key] = fc.define(so, term, "s_"+shortKey(key))
 	fc.touched[key] = true
 }
@@ -262,6 +280,12 @@ func (fc *FuncCtx) lvKey(lv *LValue) string {
 		et := lv.Global.Type().Underlying().(*types.Pointer).Elem()
 		fc.registerComp(key, fc.S.SortOf(et))
 		fc.compTy[key] = et
+		if !fc.ghostDecl["ginv:"+key] {
+			// the entry value of a package-level variable satisfies its type invariant
+			fc.ghostDecl["ginv:"+key] = true
+			iv := fc.get(fc.init, key)
+			fc.specHdr = append(fc.specHdr, "(assert "+fc.typeInv(fc.init, iv, et)+")")
+		}
 		return key
 	}
 	panic("bad lvalue")
@@ -309,6 +333,19 @@ func (fc *FuncCtx) atFrame(et types.Type, Eold, Enew string, excl func(b, ix str
 	a0 := fc.at(et, Eold, sv, iv)
 	ex := excl("(s-base "+sv+")", "(+ (s-off "+sv+") "+iv+")")
 	fc.emit("(assert (forall ((" + sv + " Slice) (" + iv + " Int)) (! " + implies(not(ex), "(= "+a1+" "+a0+")") + " :pattern (" + a1 + ") :pattern (" + a0 + "))))")
+}
+
+// zeroArray is an array whose every element is the zero value of et.
+func (fc *FuncCtx) zeroArray(et types.Type) string {
+	so := fc.S.SortOf(et)
+	name := "zeroarr_" + sanitize(so)
+	if !fc.ghostDecl[name] {
+		fc.ghostDecl[name] = true
+		z := fc.S.Zero(et)
+		fc.specHdr = append(fc.specHdr, fmt.Sprintf("(declare-const %s (Array Int %s))", name, so))
+		fc.specHdr = append(fc.specHdr, fmt.Sprintf("(assert (forall ((i Int)) (! (= (select %s i) %s) :pattern ((select %s i)))))", name, z, name))
+	}
+	return name
 }
 
 func (fc *FuncCtx) load(st *State, lv *LValue) string {
@@ -677,6 +714,9 @@ func (fc *FuncCtx) backEdge(from *ssa.BasicBlock, li *loopInfo, st *State, cond 
 	if n > 0 {
 		suffix = fmt.Sprintf("#%d", n)
 	}
+	env.at = from
+	fc.applyHints(env, li.Spec.Hints, fmt.Sprintf("%s/hint%%d%s", fc.loopName(li), suffix), cond)
+	env.at = li.Header
 	for j, inv := range li.Spec.Invariants {
 		g := fc.evalBool(env, inv.E)
 		fc.oblige(fmt.Sprintf("%s/inv%d/preserved%s", fc.loopName(li), j, suffix), "inv", cond, g, token.NoPos, inv.Text)
@@ -685,6 +725,32 @@ func (fc *FuncCtx) backEdge(from *ssa.BasicBlock, li *loopInfo, st *State, cond 
 		v := fc.evalInt(env, li.Spec.Decreases.E)
 		fc.oblige(fmt.Sprintf("%s/decreases%s", fc.loopName(li), suffix), "decreases", cond, "(and (<= 0 "+li.variant+") (< "+v+" "+li.variant+"))", token.NoPos, li.Spec.Decreases.Text)
 	}
+}
+
+// applyHints proves each hint at the current point and then assumes it. A hint
+// that mentions a variable not in scope at this point is skipped.
+func (fc *FuncCtx) applyHints(env *Env, hints []*Clause, nameFmt, reach string) {
+	for j, h := range hints {
+		g, ok := fc.tryEvalBool(env, h.E)
+		if !ok {
+			continue
+		}
+		fc.oblige(fmt.Sprintf(nameFmt, j), "hint", reach, g, token.NoPos, h.Text)
+		fc.assume(reach, g)
+	}
+}
+
+func (fc *FuncCtx) tryEvalBool(env *Env, e Expr) (t string, ok bool) {
+	defer func() {
+		if r := recover(); r != nil {
+			if se, is := r.(specErr); is && strings.Contains(string(se), "unknown identifier") {
+				ok = false
+				return
+			}
+			panic(r)
+		}
+	}()
+	return fc.evalBool(env, e), true
 }
 
 func (fc *FuncCtx) execBlock(b *ssa.BasicBlock, st *State, reach string) {
@@ -780,6 +846,11 @@ func (fc *FuncCtx) execReturn(ret *ssa.Return, st *State, reach string) {
 		results = append(results, fc.val(st, r))
 	}
 	fc.bindResults(env, results)
+	if len(fc.C.RetHints) > 0 {
+		henv := fc.bodyEnv(st, ret.Block())
+		fc.bindResults(henv, results)
+		fc.applyHints(henv, fc.C.RetHints, "rethint%d"+suffix, reach)
+	}
 	for j, e := range fc.C.Ensures {
 		g := fc.evalBool(env, e.E)
 		fc.oblige(fmt.Sprintf("post%d%s", j, suffix), "post", reach, g, ret.Pos(), e.Text)
